@@ -21,7 +21,10 @@
 //	O event i K=- race=<call>                  a call issued by ANOTHER goroutine while the poller is inside
 //	      ResetPollerEvent, between its look at the write list and its epoll_ctl (forced through the
 //	      shim's CtlHook); if the poller holds the conn mutex there, the call runs right after it
-//	O close
+//	O close [race=<call>]                      Close; the racing call is issued by "another goroutine" inside the
+//	                                           teardown (after the closed flag was set, before the fd is closed;
+//	                                           shim CloseHook): it must get the closed indication and must not
+//	                                           touch the descriptor (oracle c01-after-flip)
 //	O deadline far|0                           SetWriteDeadline one hour ahead / zero time (clear)
 //	O fire                                     the write deadline expires now (only if a timer is set on an
 //	                                           open conn: the deadline is moved to "now" and the timer's
@@ -596,8 +599,14 @@ func gen(g *lp.Gen) {
 				}
 				g.P("O event %s K=%s%s", bits, k, cb)
 			case r < 96:
+				race := ""
+				if g.Chance(1, 2) {
+					t := *s
+					t.items = append([]simItem(nil), s.items...)
+					race = " race=" + strings.ReplaceAll(genCall(g, &t, false), " ", "/")
+				}
 				s.kill()
-				g.P("O close")
+				g.P("O close%s", race)
 			case r < 98:
 				switch g.Intn(8) {
 				case 0:
@@ -1258,9 +1267,53 @@ func exec(e *lp.Exec) {
 		case f[0] == "Q":
 			res("Q %s", cur.state())
 		case f[0] == "O" && len(f) >= 2 && f[1] == "close":
-			cur.c.Close()
-			fmt.Fprintf(&cur.key, "close,")
-			res("R %s", cur.state())
+			cs := cur
+			var race *call
+			if rs, ok := kv(f[2:], "race"); ok {
+				var err error
+				race, err = parseCall(strings.Split(rs, "/"))
+				if err != nil || (race.kind == "sendfile" && race.off > cs.fsize) {
+					res("bad-op")
+					cs.dead = true
+					continue
+				}
+			} else if len(f) > 2 {
+				res("bad-op")
+				cs.dead = true
+				continue
+			}
+			rc := "-"
+			if race != nil {
+				fired := false
+				vsys.CloseHook = func(fd int) {
+					if fd != cs.fd || fired {
+						return
+					}
+					fired = true
+					// the flag is set, the queue is released, the descriptor is still open
+					cs.v.Lock()
+					w0, n0 := cs.v.Writes, len(cs.v.Wire)
+					cs.v.Unlock()
+					rc = cs.doCall(race)
+					cs.v.Lock()
+					w1, n1 := cs.v.Writes, len(cs.v.Wire)
+					cs.v.Unlock()
+					if !strings.HasSuffix(rc, ":closed") || w1 != w0 || n1 != n0 {
+						orc("c01-after-flip", "%s issued between the close flag and the close of the descriptor returned %s, write-like syscalls %d -> %d, wire %d -> %d bytes (expected the closed indication and no access to the descriptor)",
+							race.kind, rc, w0, w1, n0, n1)
+					}
+				}
+				cs.c.Close()
+				vsys.CloseHook = nil
+				if !fired { // already closed before: the call simply follows
+					rc = cs.doCall(race)
+				}
+				e.Count("events", "close-race")
+			} else {
+				cs.c.Close()
+			}
+			fmt.Fprintf(&cs.key, "close,")
+			res("R rc=%s %s", rc, cs.state())
 		case f[0] == "O" && len(f) == 3 && f[1] == "deadline" && (f[2] == "far" || f[2] == "0"):
 			if f[2] == "far" {
 				_ = cur.c.SetWriteDeadline(time.Now().Add(time.Hour))
